@@ -2,52 +2,60 @@
    Only theorem statements, each closed by [exact] and followed by
    Print Assumptions.
 
-   Models (Inv/NameDefs.v): [build_id] (count+1, as shipped before commit
-   70fb0eb), [build_id_fixed] (count+1 advanced to the next free suffix, the
-   repair of defect D10), [build_init], [log_id] of util.sh on what find(1)
-   sees.  gen/Gen_Util.v, regenerated from util.sh on every run by
-   harness/t_util.py, says which of the two build_id bodies util.sh contains
-   ([build_id_current], [gen_build_id_current], [build_id_is_fixed]).
+   Models (Inv/NameDefs.v): [build_id] (count+1, as shipped), [build_id_fixed]
+   (count+1 advanced to the next free suffix, /repo 70fb0eb, the repair of
+   defect D10), [build_id_max] (largest suffix in use today plus one, the
+   repair of defect D23), [build_init], [log_id] of util.sh on what find(1) /
+   the glob sees.  gen/Gen_Util.v, regenerated from util.sh on every run by
+   harness/t_util.py, says which of the three build_id bodies util.sh contains
+   ([build_id_variant], [build_id_current], [gen_build_id_current]).
 
-   [history gen s ops] runs a sequence of operations [Run date] (a new
-   invocation: build_id, then build_init, which takes over an existing
-   directory) and [Remove victims] (cleaning, any victims whatsoever) on the
-   set of directory names of an invocation root and reports for every run the
-   generated name and whether a directory of that name was already there.
-
-   The build_id half is stated at full strength for the code as it is now; it
-   stops compiling when the loop is taken out of build_id again (the check
-   then also replays C17_regression_count_plus_one_collides's history,
-   corpus/C17/00_d10_only_date2.json and 01_d10_three_runs_keep1.json, on the
-   real scripts).
+   TWO READINGS of "a directory ... that did not exist before, whatever
+   invocations exist or have been cleaned away":
+   (1) the name is carried by no entry of the root NOW: C17_build_id_fresh, for
+       every root and every history of runs and arbitrary removals;
+   (2) the name was NEVER handed out before: C17_never_reissued_partial, for
+       every sequence of runs and REAL cleanings (Inv/PurgeDefs.robsd_clean_x,
+       any keep / count / keep-attic, while the latest invocation runs or while
+       nothing runs) on a day with at most nine invocations - the k-th run of
+       the day is DATE.k and the names increase in the order robsd-ls uses.
+       Outside: C17_never_reissued_refuted (eleven runs, `robsd-clean 1`, the
+       next run is DATE.10 again; the newest invocation removed by hand).
+       Historical: C17_regression_next_free_reissues (the second body handed
+       out DATE.2 twice, below DATE.3).
 
    END TO END (Inv/NameNewDefs.v): [new_invocation] = build_id composed with
    build_init on a tree WITH contents (the tree of the cleaning model, a file
    node carries its bytes).  C17_new_invocation_fresh: in every tree reachable
-   by runs and cleaning the result is the tree plus exactly the four entries of
+   by runs and removals the result is the tree plus exactly the four entries of
    a fresh build directory; C17_new_invocation_never_overwrites: in ANY tree no
    entry is removed or changed.
 
    NOT CLAIMED (C17_concurrent_same_id_not_excluded): two runs that evaluate
    build_id before either has created its directory get the same name and both
    pass lock_acquire - replayed on util.sh, findings/C17_concurrent_same_id.md.
+   [lock_acquire] is the meaning of the statements read out of util.sh
+   (C17_lock_acquire_is_util_sh).
 
    LOG FILES: the statement holds for every interleaving of attempts with
    entries appearing anywhere (except top-level names STEM.log.k) and entries
-   without ".log" in their name disappearing (C17_log_env_fresh).  When a log
-   itself is deleted the next attempt can be handed the name of a log that is
-   still there (C17_log_del_refuted; replayed, findings/C17_log_id_after_delete.md). *)
-From Robsd Require Import Inv.NameSpec Inv.NameProofs Inv.NameTie Inv.NameNewDefs Inv.NameNew Inv.PurgeDefs.
+   without ".log" in their name disappearing (C17_log_env_fresh).  A deleted
+   log is outside the quantifier ("sequences of attempts": nothing in robsd
+   deletes a log - except the C16 known finding clean-lock-spelled-differently,
+   which strips the RUNNING directory); what happens then is stated as a
+   boundary (C17_log_del_refuted; replayed, findings/C17_log_id_after_delete.md). *)
+From Robsd Require Import Inv.NameSpec Inv.NameProofs Inv.NameMax Inv.NameTie Inv.NameNewDefs Inv.NameNew Inv.PurgeDefs
+  Inv.PurgeSpec Inv.PurgeComplete Inv.PurgeBlocked Inv.NameMono Inv.LockSrc Inv.LockTie Inv.LsSpec.
 From RobsdGen Require Import Gen_Util.
 From Coq Require Import String.
 Local Open Scope N_scope.
 
 (* ---- build_id, as util.sh has it now ---- *)
 
-(* whatever the root holds - any entries of any kind at any depth, any gaps,
-   more than nine per day, an attic - the name handed out is not the name of
-   an entry of the root; for every history of runs and removals (cleaning of
-   any victims) starting from any root no run is handed an existing name *)
+(* reading (1): whatever the root holds - any entries of any kind at any depth,
+   any gaps, more than nine per day, an attic - the name handed out is not the
+   name of an entry of the root; for every history of runs and removals (of any
+   victims whatsoever) starting from any root no run is handed an existing name *)
 Theorem C17_build_id_fresh :
   (forall d start base tree, fresh_in (build_id_current d start base tree) tree) /\
   (forall d s, ~ In (gen_build_id_current d s) s) /\
@@ -55,29 +63,77 @@ Theorem C17_build_id_fresh :
 Proof. exact current_fresh. Qed.
 Print Assumptions C17_build_id_fresh.
 
-(* the generator used in the histories is build_id on a root without nested
-   matches, newlines in names or a matching root name *)
+(* the generator used in the histories is build_id on a root holding these
+   directories *)
 Theorem C17_build_id_flat : forall d start base names,
-  prefixb d base = false -> nlcount start = 0%nat -> Forall (fun n => nlcount n = 0%nat) names ->
   build_id_current d start base (flat_tree names) = gen_build_id_current d names.
 Proof. exact current_flat. Qed.
 Print Assumptions C17_build_id_flat.
 
-(* the name is still DATE.k, with k above the number of directories of the
-   day, and it is the count+1 name wherever that one is free *)
+(* the name is DATE.k - DATE, a dot, digits - with k one more than the largest
+   suffix any entry directly below the root carries that day (any kind of
+   entry; a suffix = what follows the last dot, all digits, no leading zero) *)
 Theorem C17_build_id_named_after_date : forall d start base tree,
-  (has_top (build_id d start base tree) tree = false ->
-     build_id_current d start base tree = build_id d start base tree) /\
-  exists k, build_id_current d start base tree = with_suffix d k /\
-            (S (find_lines start base (date_test d) tree) <= k)%nat.
-Proof. exact current_conservative. Qed.
+  named_after d (build_id_current d start base tree) = true /\
+  build_id_current d start base tree = with_suffixN d (N.succ (max_suffix d (top_level tree))) /\
+  forall n k, In n (top_level tree) -> day_suffix d n = Some k -> k < N.succ (max_suffix d (top_level tree)).
+Proof. exact current_above. Qed.
 Print Assumptions C17_build_id_named_after_date.
 
 (* which body util.sh contains, read by the translator *)
 Theorem C17_util_sh_build_id :
-  build_id_is_fixed = true /\ build_id_current = build_id_fixed /\ gen_build_id_current = gen_build_id_fixed.
-Proof. exact (conj current_is_fixed (conj eq_refl eq_refl)). Qed.
+  build_id_variant = 2 /\ build_id_current = build_id_max /\ gen_build_id_current = gen_build_id_max.
+Proof. exact (conj current_is_max (conj eq_refl eq_refl)). Qed.
 Print Assumptions C17_util_sh_build_id.
+
+(* reading (2), for the third body [build_id_max]: a root whose invocations are
+   older than the day DATE = Y-M-D (names below DATE., nothing named DATE.x for any x),
+   then any sequence of runs and real cleanings with at most nine runs: the
+   tree stays well-formed; the names handed out are DATE.1, DATE.2, ... in this
+   order whatever was cleaned in between - none twice, strictly increasing in
+   the byte order robsd-ls sorts by; every invocation in the root is one of the
+   old ones or one of these; every old one sorts below every new one; the most
+   recent one is still there *)
+Theorem C17_never_reissued_partial : forall rootstr d start base f0,
+  nonl rootstr -> nonul rootstr -> forall y m dd, d = y ++ 45 :: m ++ 45 :: dd ->
+  dashfree y -> dashfree m -> (dashfree dd /\ ~ In 46 dd /\ nonl d /\ nonul d) -> hidden d = false ->
+  wf_tree f0 ->
+  (forall e x, In e f0 -> f_path e = [x] -> prefixb (d ++ [46]) x = false) ->
+  (forall v, invocation f0 v -> blt v (d ++ [46])) ->
+  forall ops, (runs_of ops <= 9)%nat ->
+  let st := hrun rootstr d start base f0 ops in
+  wf_tree (fst st) /\
+  snd st = names_upto d (runs_of ops) /\
+  NoDup (snd st) /\ StronglySorted blt (snd st) /\
+  (forall v, invocation (fst st) v -> invocation f0 v \/ In v (snd st)) /\
+  (forall v w, invocation f0 v -> In w (snd st) -> blt v w) /\
+  (snd st <> [] -> invocation (fst st) (last (snd st) [])).
+Proof. exact reach_names. Qed.
+Print Assumptions C17_never_reissued_partial.
+
+(* [hrun] hands out the names build_id hands out: one run is the current
+   build_id composed with build_init *)
+Theorem C17_history_runs_current_build_id : forall rootstr d start base f born,
+  hstep rootstr d start base (f, born) HRun =
+  (snd (snd (new_invocation d start base f)), born ++ [fst (new_invocation d start base f)]).
+Proof. exact (fun rootstr d start base f born => eq_refl). Qed.
+Print Assumptions C17_history_runs_current_build_id.
+
+(* outside the guard: (a) eleven runs on one day, then `robsd-clean 1` while
+   nothing runs (keeps DATE.9, the greatest name; DATE.10 and DATE.11 go to the
+   attic), then a run: DATE.10 a second time, while attic/2024/03/05.10 holds
+   the first; (b) the newest invocation removed by hand (no cleaning does
+   that): its name is handed out again *)
+Theorem C17_never_reissued_refuted :
+  (let st := hrun (bs "/r") (bs "2024-03-05") (bs "/r") (bs "r") [] ten_ops in
+   nth 9 (snd st) [] = bs "2024-03-05.10" /\ nth 11 (snd st) [] = bs "2024-03-05.10" /\
+   invocations_desc (fst st) = [bs "2024-03-05.9"; bs "2024-03-05.10"] /\
+   is_dir_at [bs "attic"; bs "2024"; bs "03"; bs "05.10"] (fst st) = true) /\
+  (let d := bs "2024-03-05" in
+   map fst (snd (history gen_build_id_max [] [Run d; Run d; Remove [bs "2024-03-05.2"]; Run d])) =
+     [bs "2024-03-05.1"; bs "2024-03-05.2"; bs "2024-03-05.2"]).
+Proof. exact (conj reuse_after_ten max_reissues_after_newest_removed). Qed.
+Print Assumptions C17_never_reissued_refuted.
 
 Theorem C17_util_sh_log_constants :
   log_pad_width = 3%nat /\ log_ext = dot_log /\ log_dups_threshold = 0%nat.
@@ -152,10 +208,16 @@ Theorem C17_concurrent_same_id_not_excluded : forall d start base rootstr f,
 Proof. exact concurrent_same_id. Qed.
 Print Assumptions C17_concurrent_same_id_not_excluded.
 
-Theorem C17_util_sh_lock_acquire :
-  lock_acquire_compares_owner = true /\ lock_taken_after_build_init = true.
-Proof. exact lock_tie. Qed.
-Print Assumptions C17_util_sh_lock_acquire.
+(* [lock_acquire] above is not a transcription held next to the source: the
+   translator reads the statements of util.sh lock_acquire (which file is read
+   into _owner, the tests of the refusal and how they are joined, the status,
+   what is written where) into gen/Gen_Util.lock_acquire_src, and their meaning
+   (Inv/LockSrc.run_lock) is this function, for every lock file content and
+   every build directory *)
+Theorem C17_lock_acquire_is_util_sh : forall root lock bd,
+  run_lock lock_acquire_src root lock bd = lock_acquire lock bd.
+Proof. exact lock_acquire_is_source. Qed.
+Print Assumptions C17_lock_acquire_is_util_sh.
 
 Theorem C17_sequential_runs_excluded : forall rootstr id1 id2,
   nonl (mkpath rootstr id1) -> id1 <> id2 ->
@@ -180,6 +242,25 @@ Theorem C17_regression_count_plus_one_collides :
    build_id_fixed d (bs "/r") (bs "r") tree = bs "2024-03-05.3").
 Proof. exact count_plus_one_collides. Qed.
 Print Assumptions C17_regression_count_plus_one_collides.
+
+(* ---- documented regression (defect D23, the second body, /repo 70fb0eb): two
+   runs, the first cleaned away, a third run, the second cleaned away, a fourth
+   run - it is handed DATE.2 a second time (free NOW, so no collision flag), a
+   name that sorts below DATE.3, which exists: robsd-ls lists the new
+   invocation as the older one and the next cleaning archives it.  Replayed on
+   the real scripts (findings/D23_build_id_monotone.md (a),
+   corpus/C17/10_d23_keep2_seven_runs.json).  The third body hands out DATE.4 ---- *)
+Theorem C17_regression_next_free_reissues :
+  let d := bs "2024-03-05" in
+  let ops := [Run d; Run d; Remove [bs "2024-03-05.1"]; Run d; Remove [bs "2024-03-05.2"]; Run d] in
+  history gen_build_id_fixed [] ops =
+    ([bs "2024-03-05.3"; bs "2024-03-05.2"],
+     [(bs "2024-03-05.1", false); (bs "2024-03-05.2", false); (bs "2024-03-05.3", false); (bs "2024-03-05.2", false)]) /\
+  bltb (bs "2024-03-05.2") (bs "2024-03-05.3") = true /\
+  map fst (snd (history gen_build_id_max [] ops)) =
+    [bs "2024-03-05.1"; bs "2024-03-05.2"; bs "2024-03-05.3"; bs "2024-03-05.4"].
+Proof. exact next_free_reissues. Qed.
+Print Assumptions C17_regression_next_free_reissues.
 
 (* ---- log_id: holds in full ---- *)
 
